@@ -5,7 +5,7 @@ ENGINES = [
      'kind_free_text': 'whole-crate call graph (fn items as values and closures are edges, CHA for unresolved trait calls) and transitive effect sets'},
     {'name': 'E3 bit-precise evaluator', 'path': 'analysis/bits.py rules/layout.py', 'serves_properties': ['C04', 'C12'],
      'kind_free_text': 'integers as vectors of bits, each bit a truth table over <= 8 named input bits; byte arrays at constant offsets; loop-free code only'},
-    {'name': 'E4 relational abstract interpreter', 'path': 'analysis/interp.py analysis/lin.py analysis/e4.py', 'serves_properties': ['C01', 'C18'],
+    {'name': 'E4 relational abstract interpreter', 'path': 'analysis/interp.py analysis/lin.py analysis/e4.py', 'serves_properties': ['C01', 'C14', 'C18'],
      'kind_free_text': 'abstract interpretation of MIR over linear constraints between immutable symbols; entailment by Fourier-Motzkin with gcd tightening; summaries with bad-region lifting; weak join, widening with thresholds, progress-ratio candidates; post-fixpoint ranking search'},
     {'name': 'E5 tables (clang AST vs MIR)', 'path': 'rules/C15.py tables/', 'serves_properties': ['C15'],
      'kind_free_text': 'clang -Xclang -ast-dump=json of src/bin/c_hook/c_hook.h compared with the ADT/fn-pointer types of the type-checked Rust crate'},
@@ -142,5 +142,14 @@ CHECKS['C15'] = {
              '(d) every int-returning entry returns 0 on the native Ok path and throw_err(..) (= -1, out-pointer stored only if non-null) on the Err path. '
              'Equality of results with the native API over whole hook scripts is NOT decided (it follows from thinness only informally).'),
     'note': 'Trusted: clang 14 AST, tables/fn_table_map.json, rustc MIR. Fixed-size array parameters are bounds-checked by Rust itself once their sizes match the header (checked).',
+}
+CHECKS['C14'] = {
+    'engine': 'E4 relational abstract interpreter', 'level': 'other',
+    'technique': 'relational abstract interpretation of the text->wire conversion with value probes at the push sites, plus a value-flow lemma',
+    'design_ref': 'DESIGN.md section 4, C14',
+    'text': ('Decides for every input string: (a) the conversion cannot panic (slice ranges, u8 counter overflow), the one obligation needing label_start <= len discharged by a checked structural lemma; '
+             '(b) every label length byte it emits lies in [1, 62] (exactly the documented limit, hence never a pointer marker) and the terminator is 0; (c) every Ok exit leaves at most 253 bytes in the output buffer. '
+             'NOT decided: that the emitted labels are exactly the dot-separated input labels (needs the invariant label_len = i - label_start, which the domain does not derive), the read-back through raw_name_to_str, and the exact accepted language.'),
+    'note': 'Trusted: slice-iterator/enumerate/Vec contracts and the linear domain. The round-trip equality is a run-time relation.',
 }
 NOT_APPLICABLE = {('C%02d' % i): PENDING for i in range(1, 19) if ('C%02d' % i) not in CHECKS}
